@@ -179,6 +179,12 @@ def run(rep, tier, props):
                     rep.extra.setdefault('other_property_findings', {}).setdefault(f['sig'], 0)
                     rep.extra['other_property_findings'][f['sig']] += 1
                     continue
+                if ':unsupported-raises:' in f['sig']:
+                    # the property explicitly allows this: "where an operation is not supported it raises rather
+                    # than returning a different function" - recorded, never an alarm
+                    d = rep.extra.setdefault('raises_where_numpy_gives_a_value', {})
+                    d[f['sig']] = d.get(f['sig'], 0) + 1
+                    continue
                 fcount[f['sig']] += 1
                 if fcount[f['sig']] <= 3:
                     f = dict(f, word=r['key'])
